@@ -52,11 +52,14 @@ func (rc *ResourceController) Register(id *ProcessId, process Process) (pid *Pro
 
 // Unregister 从资源控制器注销一个进程
 func (rc *ResourceController) Unregister(killer *ProcessId, target *ProcessId) {
-	process, exist := rc.processes.LoadAndDelete(target.GetLogicalAddress())
-	if !exist {
-		return
-	}
-	process.Terminate(killer)
+	// 在删除条目之前（持有该条目的锁期间）先终止进程：这样任何缓存了该进程的 ProcessId 在条目消失时
+	// 必然已经能通过 IsTerminated 观察到终止状态，不会在地址被重新注册后仍然解析到旧进程
+	rc.processes.Compute(target.GetLogicalAddress(), func(process Process, exist bool) (Process, bool) {
+		if exist {
+			process.Terminate(killer)
+		}
+		return process, true
+	})
 	//rc.logger().Debug("ResourceController", log.String("unregister", target.URL().String()))
 }
 
